@@ -40,7 +40,7 @@ class SigmoidTransform(Transform):
         self.width = upper - lower
 
     def forward(self, x: ArrayLike) -> Array:
-        y = 1.0 / (1.0 + save_exp(-x))
+        y = jax.nn.sigmoid(x)
         return self.lower + self.width * y
 
     def inverse(self, y: ArrayLike) -> Array:
@@ -62,10 +62,11 @@ class SoftplusTransform(Transform):
         self.lower = lower
 
     def forward(self, x: ArrayLike) -> Array:
-        return jnp.log1p(save_exp(x)) + self.lower
+        return jax.nn.softplus(x) + self.lower
 
     def inverse(self, y: ArrayLike) -> Array:
-        return jnp.log(save_exp(y - self.lower) - 1.0)
+        z = y - self.lower
+        return z + jnp.log(-jnp.expm1(-z))
 
 
 class NegSoftplusTransform(SoftplusTransform):
